@@ -53,6 +53,9 @@ VARIANTS = [
     ('findall', 'EQ', None, [("    result = []\n    for m in rgxp.finditer(src):\n        result.append(m.group())\n", "    result = rgxp.findall(src)\n")]),
     ('early-return-no-preserve', 'EQ', None, [("    if preserve_whitespaces and len(result) > 1:\n        for i in range(len(result) - 1):\n            result[i] = result[i][:-1]\n    return result",
                                                "    if not preserve_whitespaces:\n        return result\n    for i in range(len(result) - 1):\n        result[i] = result[i][:-1]\n    return result")]),
+    # equal only at the level of split_quoted_str (a dropped warning of extract_next_field is raised again by a later field: the quote is
+    # still in the rest of the line) - the obligation of extract_next_field itself cannot hold: an alarm that needs a global argument
+    ('warning-overwritten-in-extract', 'EQ', None, [("    warning = warning or field.find('\"') != -1\n", "    warning = field.find('\"') != -1\n")]),
     ('on-top-of-C10-h1', 'EQ', 'C10-h1', []),
     ('on-top-of-C11-h1', 'EQ', 'C11-h1', []),
     ('on-top-of-C18-h1', 'EQ', 'C18-h1', []),
@@ -64,7 +67,6 @@ VARIANTS = [
     ('D-trailing-ge', 'DIFF', None, [("if cidx == len(src): # The last", "if cidx >= len(src): # The last")]),
     ('D-no-unescape', 'DIFF', None, [("result.append(match_obj.group(1).replace('\"\"', '\"'))", "result.append(match_obj.group(1))")]),
     ('D-always-external-whitespaces', 'DIFF', None, [("allow_external_whitespaces = dlm != ' '", "allow_external_whitespaces = True")]),
-    ('D-warning-overwritten', 'DIFF', None, [("    warning = warning or field.find('\"') != -1\n", "    warning = field.find('\"') != -1\n")]),
     ('D-loop-warning-overwritten', 'DIFF', None, [("        warning = warning or extraction_report[1]\n", "        warning = extraction_report[1]\n")]),
     ('D-chop-without-preserve', 'DIFF', None, [("if preserve_whitespaces and len(result) > 1:", "if len(result) > 1:")]),
     ('D-chop-all', 'DIFF', None, [("for i in range(len(result) - 1):", "for i in range(len(result)):")]),
